@@ -4,7 +4,7 @@
    has received), cfg over every combination of optional interfaces, cs over
    every call sequence (so each statement holds after every call). *)
 From FoxBase Require Import Bytes.
-From FoxC14 Require Import Types Spec Model ModelFixed Lemmas Invariant Effects Corr ProofsFixed ProofsCur Examples.
+From FoxC14 Require Import Types Spec Model ModelFixed Lemmas Invariant Effects Corr ProofsFixed ProofsCur Examples Nested ProofsNested.
 From Coq Require Import List ZArith.
 Import ListNotations.
 Open Scope Z_scope.
@@ -70,6 +70,18 @@ Theorem at_most_one_final_header_partial :
   (forall P cfg cs, c_rf cfg = false -> header_discipline (lg (snd (fst (run P cfg cs))))).
 Proof. exact (conj cur_at_most_one_final cur_discipline_partial). Qed.
 Print Assumptions at_most_one_final_header_partial.
+
+(* ---- a router mounted in another router (Nested.v): after any interleaving of calls by the parent's handlers
+   and by the mounted router's handlers the PARENT's Status is the first final status that reached the real
+   writer, which saw at most one (Size / Written / "none after body bytes" are the clauses the pinned ReadFrom
+   fast path breaks already for a single router; they are proved for the patched recorder in
+   Props_C14_fixed.v) ---- *)
+Theorem nested_recorder_transparent_partial : forall P cfg (cs : list (who * call)),
+  let parent := snd (fst (nrun P cfg cs)) in
+  status_ok (lg (snd parent)) (rec_answers (fst parent)) /\
+  (length (finals (lg (snd parent))) <= 1)%nat.
+Proof. exact cur_nested_recorder_transparent. Qed.
+Print Assumptions nested_recorder_transparent_partial.
 
 (* ---- every body byte forwarded in order: FULL ---- *)
 Theorem bytes_forwarded_in_order : forall P cfg cs c, io_writer_contract P ->
